@@ -663,6 +663,9 @@ func (ex *Exec) makeSlice(st *State, t types.Type, ln, cp string) Val {
 		srt := sArr(sInt, sArr(sInt, l.Sort))
 		c := ex.comp(st, name, srt)
 		z := "((as const " + sArr(sInt, l.Sort) + ") " + zeroLeaf(l) + ")"
+		if l.Sort == sStr {
+			z = "STR_EMPTY_ARR"
+		}
 		ex.setComp(st, name, srt, mkStore(c, r, z))
 		ex.noteWrite(name, r)
 	}
